@@ -246,6 +246,7 @@ def _isinstance(e, st, node, x, cls):
         if nm == 'ndarray' and isinstance(v, Arr) and not v.meta.get('list'): return True
         if nm == 'list' and isinstance(v, Arr) and v.meta.get('list'): return True
         if nm in ('tuple',) and isinstance(v, Tup): return True
+        if nm == 'slice' and isinstance(v, Slice): return True
         if nm == 'str' and isinstance(v, Str): return True
         if isinstance(v, RecV) and nm == v.cls: return True
     return False
@@ -1126,7 +1127,10 @@ def concat_blocks(e, st, n, width, cell, kind, tag='cat'):
               z3.ForAll([c], z3.Implies(z3.And(c >= 0, c < n), z3.And(PS(c + 1) == PS(c) + width(c), width(c) >= 0))),
               z3.ForAll([c, t], z3.Implies(z3.And(c >= 0, c < n, t >= 0, t < width(c)), z3.Select(C, PS(c) + t) == cell(c, t))),
               z3.ForAll([c], z3.Implies(z3.And(c >= 0, c <= n), z3.And(PS(c) >= 0, PS(c) <= PS(n)))),
-              z3.ForAll([t], z3.Implies(z3.And(t >= 0, t < PS(n)), z3.And(BLK(t) >= 0, BLK(t) < n, PS(BLK(t)) <= t, t < PS(BLK(t) + 1))))]
+              z3.ForAll([c, t], z3.Implies(z3.And(c >= 0, c <= t, t <= n), PS(c) <= PS(t))),          # prefix_mono (lemmas/Sums.lean)
+              z3.ForAll([t], z3.Implies(z3.And(t >= 0, t < PS(n)), z3.And(BLK(t) >= 0, BLK(t) < n, PS(BLK(t)) <= t, t < PS(BLK(t) + 1)))),
+              # the same content read by position (a consequence of the lines above, stated so that C[k] can be rewritten directly)
+              z3.ForAll([t], z3.Implies(z3.And(t >= 0, t < PS(n)), z3.Select(C, t) == cell(BLK(t), t - PS(BLK(t)))))]
     return e.new_obj(st, Arr(C, (PS(n),), kind, meta={'PS': PS, 'BLK': BLK, 'blocks': n}))
 
 
